@@ -12,7 +12,10 @@ import (
 	"strings"
 
 	"github.com/ecodeclub/ekit"
+	"verifharness/reg"
 )
+
+func init() { reg.Register("c17", Main) }
 
 type (
 	nInt     int
